@@ -6,17 +6,18 @@ From Coq Require Import List String Bool.
 Require Import Model.Conc Gen.EmuSkeleton Proofs.ConcProofs Tie.TranslationOk.
 Import ListNotations.
 
-(* metatheory, proved once: disciplined code has no race and no overlapping critical sections, for any number of
-   threads and every interleaving that respects the lock *)
+(* metatheory, proved once: disciplined code has no race and no write critical section overlapping any other critical
+   section, for any number of threads and every interleaving that respects the lock (sync.Mutex, or sync.RWMutex:
+   a writer excludes everybody, readers exclude the writer) *)
 Theorem C17_discipline_sound : forall code : nat -> list action,
-  (forall i, ok false (code i) = true) ->
+  (forall i, ok HN (code i) = true) ->
   forall st, reachable (initial code) st -> ~ race st /\ ~ overlap st.
 Proof. exact discipline_sound. Qed.
 Print Assumptions C17_discipline_sound.
 
 (* the static check is sound for every path of a statement (loops unrolled arbitrarily, returns cut the path) *)
 Theorem C17_disciplined_paths : forall s l ret, disciplined s = true -> path s l ret ->
-  ok false l = true /\ final false l = false.
+  ok HN l = true /\ final HN l = HN.
 Proof. exact disciplined_paths. Qed.
 Print Assumptions C17_disciplined_paths.
 
@@ -48,6 +49,9 @@ Print Assumptions C17_emulator_race_free.
 Example C17_example :
   disciplined (Seq (Act (ARd Mode)) (Seq (Choice Ret Skip) Ret)) = false /\
   disciplined m_Transmit = true /\
+  (* sync.RWMutex: a read under the read lock is fine, a write under it is not *)
+  disciplined (Seq (Act ARLock) (Seq (Act (ARd Mode)) (Seq (Act ARUnlock) Ret))) = true /\
+  disciplined (Seq (Act ARLock) (Seq (Act (AWr Mode)) (Act ARUnlock))) = false /\
   path m_SetSendMode [ALock; AWr Mode; AUnlock] false.
 Proof.
   repeat split; try reflexivity.
